@@ -2414,9 +2414,10 @@ GROUP_DEPS = {'Grp': ['Std', 'PS'], 'Fam': ['Std', 'PS', 'Idx'], 'GrpPoll': ['Gr
               'JoinVD': ['Fam2D', 'Fam2', 'Dir'], 'JoinAD': ['Arr1D', 'Arr1', 'Fam2', 'Dir'],
               'TryJoinVD': ['Fam3D', 'Fam3', 'Dir'], 'TryJoinAD': ['Arr2D', 'Arr2', 'Fam3', 'Dir'],
               'MergeVD': ['FamD', 'Fam', 'Dir'], 'MergeAD': ['Arr3D', 'Arr3', 'Fam', 'Dir'],
-              'ZipVD': ['Fam4D', 'Fam4', 'Dir'], 'ZipAD': ['Arr4D', 'Arr4', 'Fam4', 'Dir']}
+              'ZipVD': ['Fam4D', 'Fam4', 'Dir'], 'ZipAD': ['Arr4D', 'Arr4', 'Fam4', 'Dir'],
+              'GrpPollDF': ['GrpD', 'Grp', 'Dir', 'Fam'], 'GrpPollDS': ['GrpD', 'Grp', 'Dir', 'Fam']}
 # generated groups that also exist in the no_std / alloc-only flavour (group name + 'D', namespaces + 'D')
-DIR_FLAVOUR = {'Fam': ['MergeV', 'RaceV'], 'Fam2': ['JoinV'], 'Fam3': ['TryJoinV'], 'Fam4': ['ZipV'],
+DIR_FLAVOUR = {'Grp': ['GrpF', 'GrpS'], 'Fam': ['MergeV', 'RaceV'], 'Fam2': ['JoinV'], 'Fam3': ['TryJoinV'], 'Fam4': ['ZipV'],
                'Arr1': ['JoinA'], 'Arr2': ['TryJoinA'], 'Arr3': ['MergeA'], 'Arr4': ['ZipA']}
 # groups of tie theorems that have no generated file of their own (they talk about functions of another group's file)
 VIRTUAL_GROUPS = {'GrpPoll': ['GrpF', 'GrpS'], 'RaceV': ['RaceV'], 'MergeV': ['MergeV'], 'JoinV': ['JoinV'], 'ChainV': ['ChainV'], 'ZipV': ['ZipV'], 'TryJoinV': ['TryJoinV'],
@@ -2424,7 +2425,8 @@ VIRTUAL_GROUPS = {'GrpPoll': ['GrpF', 'GrpS'], 'RaceV': ['RaceV'], 'MergeV': ['M
                   'RaceA': ['RaceA'], 'RaceOkA': ['RaceOkA'],
                   # the no_std / alloc-only flavour (FcProps/KTie<Fam>{V,A}D.lean): the same translated functions
                   'JoinVD': ['JoinV'], 'JoinAD': ['JoinA'], 'TryJoinVD': ['TryJoinV'], 'TryJoinAD': ['TryJoinA'],
-                  'MergeVD': ['MergeV'], 'MergeAD': ['MergeA'], 'ZipVD': ['ZipV'], 'ZipAD': ['ZipA']}
+                  'MergeVD': ['MergeV'], 'MergeAD': ['MergeA'], 'ZipVD': ['ZipV'], 'ZipAD': ['ZipA'],
+                  'GrpPollDF': ['GrpF'], 'GrpPollDS': ['GrpS']}
 # the no_std / alloc-only builds compile the SAME family sources against src/utils/wakers/{vec,array}/no_std.rs: the readiness
 # set has no flags and `WakerVec::get` / `WakerArray::get` hand out the stored parent waker itself
 WAKERDIR_PRELUDE = '''/-- hand-written model of the no_std `WakerVec` (utils/wakers/vec/no_std.rs): a wrapper of the flag-less readiness set;
@@ -2513,6 +2515,7 @@ REQUIRED = {
     'JoinVD': ['JoinV.Join.poll', 'JoinV.Join.drop'], 'JoinAD': ['JoinA.Join.poll', 'JoinA.Join.drop', 'JoinA.Join.new'],
     'TryJoinVD': ['TryJoinV.TryJoin.poll', 'TryJoinV.TryJoin.drop'], 'TryJoinAD': ['TryJoinA.TryJoin.poll', 'TryJoinA.TryJoin.drop', 'TryJoinA.TryJoin.new'],
     'MergeVD': ['MergeV.Merge.poll_next'], 'MergeAD': ['MergeA.Merge.poll_next', 'MergeA.Merge.new'],
+    'GrpPollDF': ['GrpF.FutureGroup.poll_next_inner'], 'GrpPollDS': ['GrpS.StreamGroup.poll_next_inner'],
     'ZipVD': ['ZipV.Zip.poll_next', 'ZipV.Zip.drop'], 'ZipAD': ['ZipA.Zip.poll_next', 'ZipA.Zip.drop', 'ZipA.Zip.new'],
     'MergeV': ['MergeV.Merge.poll_next'],
     'JoinV': ['JoinV.Join.poll', 'JoinV.Join.drop', 'JoinV.Join.new'],
